@@ -476,3 +476,11 @@ Example cdiv_r_cabs_rounding_bound_nonvacuous :
   no_underflow (R_sqrt.sqrt (rnd64 (rnd64 (a * a) + rnd64 (b * b)))).
 Proof. exact cdiv_r_cabs_rounding_bound_nonvacuous_lemma. Qed.
 
+
+(* ---- tie to the source by proof: the operator definitions regenerated from src/complex/mod.rs on this run
+   (gen/ComplexOps.v, driver/translate.py) are convertible with the hand-written model every theorem above is about. *)
+From OV Require Import gen.ComplexOps Proofs.ComplexGen.
+Theorem model_is_source_C13 : forall A : Arith, @model_is_source A.
+Proof. intros A. exact model_is_source_lemma. Qed.
+Check model_is_source_C13 : forall A : Arith, @model_is_source A.
+Print Assumptions model_is_source_C13.
